@@ -923,26 +923,24 @@ def binary_search_by(m, ref, args, t, sp):
             raise Unsupported("comparator did not return Ordering")
         return o.variant - 1
 
+    # The contract's precondition is that the slice is sorted with respect to the comparator, so
+    # the outcome is characterised by the comparator's value on the elements next to the returned
+    # position; those are the ones the comparator is (abstractly) run on.  A panic inside the
+    # comparator (e.g. unwrap of None for a NaN operand) is therefore still found.
     if c < n:
         i = c
-        # probe order is unspecified; the contract says: elements before are Less-or-Equal...,
-        # element i is Equal.  Run the comparator on all elements (any of them may be probed).
-        for j in range(n):
-            k = run(j)
-            if j == i and k != 0:
-                raise PathEnd("infeasible")
-            if j < i and k > 0:
-                raise PathEnd("infeasible")
-            if j > i and k < 0:
-                raise PathEnd("infeasible")
+        if run(i) != 0:
+            raise PathEnd("infeasible")
+        if i > 0 and run(i - 1) > 0:
+            raise PathEnd("infeasible")
+        if i + 1 < n and run(i + 1) < 0:
+            raise PathEnd("infeasible")
         return ok(i)
     i = c - n
-    for j in range(n):
-        k = run(j)
-        if j < i and k != -1:
-            raise PathEnd("infeasible")
-        if j >= i and k != 1:
-            raise PathEnd("infeasible")
+    if i > 0 and run(i - 1) != -1:
+        raise PathEnd("infeasible")
+    if i < n and run(i) != 1:
+        raise PathEnd("infeasible")
     return err(i)
 
 
